@@ -37,7 +37,7 @@ ASSUMPTIONS = [
 ]
 
 MAX_ENUM_CELLS = 9        # enumerate all projected models with PySAT up to this many cells
-MAX_BRUTE_SHAPES = 60000  # exhaustive existence check for solve up to this many shapes
+MAX_BRUTE_SHAPES = 120000  # exhaustive existence check for solve: search space up to 8 x this (covers 5x5, k = 3)
 
 
 # --------------------------------------------------------------------------
@@ -124,7 +124,10 @@ def gen_case(rng, small=False):
             "ratio": rng.choice([Fraction(2), Fraction(2), Fraction(3), Fraction(5, 2), Fraction(3, 2)]), "bound": 0,
             "history": None}
     if all(s == 0 for s, _ in coefs(case)):
-        case["occ"][rng.randrange(len(cells))] = Fraction(1)
+        good = [j for j, c in enumerate(cells) if c[0] < c[2] and c[1] < c[3]]
+        case["occ"][rng.choice(good)] = Fraction(1)
+    while all(s == 0 for s, _ in coefs(case)):      # int(factor * p * w * h) == 0 everywhere: solve would divide by 0
+        case["factor"] *= 4
     cc = cell_costs(case)
     maxpos = sum(c for c in cc if c > 0)
     minneg = sum(c for c in cc if c < 0)
@@ -378,15 +381,17 @@ def abuts(t, b):
 
 
 def all_shapes(nx, ny, k, cap=None):
+    """All k-box single-trunk orthogons (tuples of index rectangles, trunk first); None if the search space
+    (trunks x candidate branches ^ (k - 1)) exceeds 8 * cap."""
     rs = rects_of(nx, ny)
+    per_trunk = [(t, [b for b in rs if disjoint(t, b) and abuts(t, b)]) for t in rs]
+    if cap and sum(len(c) ** (k - 1) for _, c in per_trunk) > 8 * cap:
+        return None
     out = []
-    for t in rs:
-        cands = [b for b in rs if disjoint(t, b) and abuts(t, b)]
+    for t, cands in per_trunk:
         for combo in itertools.permutations(cands, k - 1):
             if all(disjoint(combo[i], combo[j]) for i in range(len(combo)) for j in range(i + 1, len(combo))):
                 out.append((t,) + combo)
-                if cap and len(out) > cap:
-                    return None
     return out
 
 
@@ -444,14 +449,22 @@ def oracle(case, obs):
         return "coords: definecoords does not return the sorted coordinate lists of the grid"
     cc = cell_costs(case)
     bound = case["bound"]
-    expected = None
+    expected = None           # small grids: every shape meeting the bound, keyed by its cell pattern
+    exists = None             # larger grids: does some shape meet the bound (None: not searched)
     shapes = all_shapes(nx, ny, k, cap=MAX_BRUTE_SHAPES)
     if shapes is not None:
-        expected = {}
-        for sh in shapes:
-            sig = sigma_of_shape(sh, pos, n)
-            if cost_of_sigma(sig, cc) >= bound:
-                expected[show_sigma(sig)] = sh
+        # cost of an index rectangle from 2-D prefix sums of the cell costs (boxes of a shape are disjoint)
+        pre = [[0] * (ny + 1) for _ in range(nx + 1)]
+        for ci in range(nx):
+            for ri in range(ny):
+                pre[ci + 1][ri + 1] = cc[pos[(ci, ri)]] + pre[ci][ri + 1] + pre[ci + 1][ri] - pre[ci][ri]
+
+        def rcost(r):
+            return pre[r[1] + 1][r[3] + 1] - pre[r[0]][r[3] + 1] - pre[r[1] + 1][r[2]] + pre[r[0]][r[2]]
+        meeting = [sh for sh in shapes if sum(rcost(r) for r in sh) >= bound]
+        exists = bool(meeting)
+        if "models" in obs:
+            expected = {show_sigma(sigma_of_shape(sh, pos, n)): sh for sh in meeting}
     if "models" in obs and expected is not None:
         got = {show_sigma(m): m for m in obs["models"]}
         for key, m in got.items():
@@ -481,12 +494,15 @@ def oracle(case, obs):
             return f"solve: returned rectangles {obs['rects']} are not the boxes {want} of the shape"
         if expected is not None and show_sigma(sig) not in expected:
             return "solve: returned shape is not among the shapes meeting the bound"
+        if exists is False:
+            return "solve: a shape was returned although the exhaustive search finds none meeting the bound"
     else:
         if obs["ret"] != [0, 1] or obs["rects"]:
             return f"solve: unsatisfiable answer is {obs['ret']}, {obs['rects']} instead of (0, 1), []"
-        if expected:
-            key = next(iter(expected))
-            return f"solve: no shape returned although [{key}] is a shape with cost >= {bound}"
+        if exists:
+            sh = meeting[0]
+            return (f"solve: no shape returned although [{show_sigma(sigma_of_shape(sh, pos, n))}] is a shape with "
+                    f"cost >= {bound}")
     return None
 
 
@@ -508,13 +524,27 @@ def failure_key(case, why):
 # --------------------------------------------------------------------------
 # shrinking: smaller grids, fewer boxes, plainer numbers
 # --------------------------------------------------------------------------
+def in_domain(case):
+    """solve divides by (ratio - 1) * theoreticalBestArea: keep shrunk cases where that is not zero."""
+    return case["ratio"] > 1 and any(s > 0 for s, _ in coefs(case))
+
+
 def rebuild(case, xs, ys):
     nx, ny = len(xs) - 1, len(ys) - 1
     cells = grid_cells(xs, ys, list(range(nx * ny)))
-    return dict(case, cells=cells, occ=[Fraction(1)] * len(cells), history=None)
+    c = dict(case, cells=cells, occ=[Fraction(1)] * len(cells), history=None)
+    while not any(s > 0 for s, _ in coefs(c)):
+        c["factor"] *= 4
+    return c
 
 
 def shrink(case):
+    for c in shrink_all(case):
+        if in_domain(c):
+            yield c
+
+
+def shrink_all(case):
     if case.get("history"):
         yield dict(case, history=None)
     g = grid_index(case) if case["kind"] == "grid" else None
@@ -553,7 +583,7 @@ def dist_key(case):
 
 
 def run(ctx, out, replay=None):
-    n = 260 if ctx.quick() else 4000
+    n = 500 if ctx.quick() else 4000
     out.rule = ("full grids of 1x1 .. 5x5 cells on strictly increasing dyadic coordinate lists (unit, integer "
                 "non-uniform, fractional extent, shifted integer / fractional / negative origin, independently per "
                 "axis), cells listed row-major, column-major or shuffled, k 1..3, occupancies in quarters, factor "
